@@ -270,3 +270,157 @@ de_root! {
     root_de_newtype, Newtype;
     root_de_unit_struct, Unit;
 }
+
+// ---- probe visitor / seeds: opaque consumers that instantiate every Deserializer, SeqAccess, MapAccess,
+// ---- EnumAccess and VariantAccess method of json-syntax (including the private access types) ---------
+pub struct Out(pub u8);
+pub struct Probe;
+
+macro_rules! probe_externs {
+    ($($name:ident($($t:ty),*);)*) => {
+        extern "Rust" { $( fn $name($(_: $t),*) -> Out; )* }
+    };
+}
+probe_externs! {
+    jsv_visit_bool(bool); jsv_visit_i8(i8); jsv_visit_i16(i16); jsv_visit_i32(i32); jsv_visit_i64(i64); jsv_visit_i128(i128);
+    jsv_visit_u8(u8); jsv_visit_u16(u16); jsv_visit_u32(u32); jsv_visit_u64(u64); jsv_visit_u128(u128);
+    jsv_visit_f32(f32); jsv_visit_f64(f64); jsv_visit_char(char); jsv_visit_string(String); jsv_visit_unit(); jsv_visit_none();
+}
+
+macro_rules! probe_visits {
+    ($($m:ident, $e:ident, $t:ty;)*) => {$(
+        #[inline(never)]
+        fn $m<E>(self, v: $t) -> Result<Out, E> { Ok(unsafe { $e(v) }) }
+    )*};
+}
+
+impl<'de> serde::de::Visitor<'de> for Probe {
+    type Value = Out;
+    fn expecting(&self, f: &mut std::fmt::Formatter) -> std::fmt::Result {
+        f.write_str("probe")
+    }
+    probe_visits! {
+        visit_bool, jsv_visit_bool, bool; visit_i8, jsv_visit_i8, i8; visit_i16, jsv_visit_i16, i16; visit_i32, jsv_visit_i32, i32;
+        visit_i64, jsv_visit_i64, i64; visit_i128, jsv_visit_i128, i128; visit_u8, jsv_visit_u8, u8; visit_u16, jsv_visit_u16, u16;
+        visit_u32, jsv_visit_u32, u32; visit_u64, jsv_visit_u64, u64; visit_u128, jsv_visit_u128, u128; visit_f32, jsv_visit_f32, f32;
+        visit_f64, jsv_visit_f64, f64; visit_char, jsv_visit_char, char; visit_string, jsv_visit_string, String;
+    }
+    #[inline(never)]
+    fn visit_unit<E>(self) -> Result<Out, E> {
+        Ok(unsafe { jsv_visit_unit() })
+    }
+    #[inline(never)]
+    fn visit_none<E>(self) -> Result<Out, E> {
+        Ok(unsafe { jsv_visit_none() })
+    }
+    #[inline(never)]
+    fn visit_some<D: serde::Deserializer<'de>>(self, d: D) -> Result<Out, D::Error> {
+        d.deserialize_any(Probe)
+    }
+    #[inline(never)]
+    fn visit_newtype_struct<D: serde::Deserializer<'de>>(self, d: D) -> Result<Out, D::Error> {
+        d.deserialize_any(Probe)
+    }
+    #[inline(never)]
+    fn visit_seq<A: serde::de::SeqAccess<'de>>(self, mut a: A) -> Result<Out, A::Error> {
+        let _ = a.size_hint();
+        let x: Option<Out> = a.next_element_seed(SeedAny)?;
+        Ok(x.unwrap_or(Out(0)))
+    }
+    #[inline(never)]
+    fn visit_map<A: serde::de::MapAccess<'de>>(self, mut a: A) -> Result<Out, A::Error> {
+        let _ = a.size_hint();
+        // every key method of the private key deserializer
+        let _: Option<Out> = a.next_key_seed(SeedAny)?;
+        let _: Out = a.next_value_seed(SeedAny)?;
+        let _: Option<Out> = a.next_key_seed(SeedKey::<0>)?;
+        let _: Option<Out> = a.next_key_seed(SeedKey::<1>)?;
+        let _: Option<Out> = a.next_key_seed(SeedKey::<2>)?;
+        let _: Option<Out> = a.next_key_seed(SeedKey::<3>)?;
+        let _: Option<Out> = a.next_key_seed(SeedKey::<4>)?;
+        let _: Option<Out> = a.next_key_seed(SeedKey::<5>)?;
+        let _: Option<Out> = a.next_key_seed(SeedKey::<6>)?;
+        let _: Option<Out> = a.next_key_seed(SeedKey::<7>)?;
+        let _: Option<Out> = a.next_key_seed(SeedKey::<8>)?;
+        let _: Option<Out> = a.next_key_seed(SeedKey::<9>)?;
+        let _: Option<Out> = a.next_key_seed(SeedKey::<10>)?;
+        let _: Option<Out> = a.next_key_seed(SeedKey::<11>)?;
+        let _: Option<Out> = a.next_key_seed(SeedKey::<12>)?;
+        let _: Option<Out> = a.next_key_seed(SeedKey::<13>)?;
+        Ok(Out(1))
+    }
+    #[inline(never)]
+    fn visit_enum<A: serde::de::EnumAccess<'de>>(self, a: A) -> Result<Out, A::Error> {
+        use serde::de::VariantAccess;
+        let (tag, v): (Out, A::Variant) = a.variant_seed(SeedAny)?;
+        match tag.0 {
+            0 => {
+                v.unit_variant()?;
+                Ok(Out(0))
+            }
+            1 => v.newtype_variant_seed(SeedAny),
+            2 => v.tuple_variant(2, Probe),
+            _ => v.struct_variant(&["x"], Probe),
+        }
+    }
+}
+
+pub struct SeedAny;
+impl<'de> serde::de::DeserializeSeed<'de> for SeedAny {
+    type Value = Out;
+    #[inline(never)]
+    fn deserialize<D: serde::Deserializer<'de>>(self, d: D) -> Result<Out, D::Error> {
+        d.deserialize_any(Probe)
+    }
+}
+
+/// Seed that drives one specific method of the deserializer it is given (used on map keys).
+pub struct SeedKey<const M: u8>;
+impl<'de, const M: u8> serde::de::DeserializeSeed<'de> for SeedKey<M> {
+    type Value = Out;
+    #[inline(never)]
+    fn deserialize<D: serde::Deserializer<'de>>(self, d: D) -> Result<Out, D::Error> {
+        match M {
+            0 => d.deserialize_i8(Probe),
+            1 => d.deserialize_i16(Probe),
+            2 => d.deserialize_i32(Probe),
+            3 => d.deserialize_i64(Probe),
+            4 => d.deserialize_i128(Probe),
+            5 => d.deserialize_u8(Probe),
+            6 => d.deserialize_u16(Probe),
+            7 => d.deserialize_u32(Probe),
+            8 => d.deserialize_u64(Probe),
+            9 => d.deserialize_u128(Probe),
+            10 => d.deserialize_option(Probe),
+            11 => d.deserialize_newtype_struct("N", Probe),
+            12 => d.deserialize_enum("E", &["A"], Probe),
+            _ => d.deserialize_string(Probe),
+        }
+    }
+}
+
+macro_rules! dev_root {
+    ($($root:ident, $m:ident $(, $extra:expr)*;)*) => {$(
+        pub fn $root(v: Value) -> DR<Out> { serde::Deserializer::$m(v, $($extra,)* Probe) }
+    )*};
+}
+dev_root! {
+    root_dev_any, deserialize_any;
+    root_dev_bool, deserialize_bool;
+    root_dev_i8, deserialize_i8; root_dev_i16, deserialize_i16; root_dev_i32, deserialize_i32; root_dev_i64, deserialize_i64; root_dev_i128, deserialize_i128;
+    root_dev_u8, deserialize_u8; root_dev_u16, deserialize_u16; root_dev_u32, deserialize_u32; root_dev_u64, deserialize_u64; root_dev_u128, deserialize_u128;
+    root_dev_f32, deserialize_f32; root_dev_f64, deserialize_f64;
+    root_dev_char, deserialize_char; root_dev_str, deserialize_str; root_dev_string, deserialize_string;
+    root_dev_bytes, deserialize_bytes; root_dev_byte_buf, deserialize_byte_buf;
+    root_dev_option, deserialize_option; root_dev_unit, deserialize_unit;
+    root_dev_unit_struct, deserialize_unit_struct, "U";
+    root_dev_newtype_struct, deserialize_newtype_struct, "N";
+    root_dev_seq, deserialize_seq;
+    root_dev_tuple, deserialize_tuple, 2;
+    root_dev_tuple_struct, deserialize_tuple_struct, "T", 2;
+    root_dev_map, deserialize_map;
+    root_dev_struct, deserialize_struct, "S", &["a"];
+    root_dev_enum, deserialize_enum, "E", &["A"];
+    root_dev_identifier, deserialize_identifier;
+    root_dev_ignored_any, deserialize_ignored_any;
+}
